@@ -27,7 +27,7 @@ MUTATORS_LEN_PRESERVING = ('core::slice::<impl [T]>::copy_from_slice', 'std::sli
                            'core::slice::<impl [T]>::swap', 'core::slice::<impl [T]>::get_mut', 'core::slice::<impl [T]>::first_mut',
                            'core::slice::<impl [T]>::last_mut', 'core::slice::<impl [T]>::clone_from_slice', 'core::slice::<impl [T]>::sort_by',
                            'core::slice::<impl [T]>::sort_by_key', 'core::slice::<impl [T]>::sort_unstable_by', 'core::slice::<impl [T]>::rotate_left',
-                           'core::slice::<impl [T]>::rotate_right')
+                           'core::slice::<impl [T]>::rotate_right', 'rug::Integer::write_digits', 'rug::Integer::write_digits_unaligned')
 PANIC_FNS = ('core::panicking::panic', 'core::panicking::panic_fmt', 'core::panicking::panic_display', 'core::panicking::assert_failed',
              'core::panicking::panic_explicit', 'core::panicking::unreachable_display', 'std::rt::begin_panic', 'core::panicking::panic_nounwind',
              'std::rt::panic_fmt')
